@@ -25,6 +25,23 @@ DOC = '<r><a>1</a><b>2</b><c>3</c></r>'
 VERIF_DIR = os.path.dirname(os.path.dirname(os.path.dirname(os.path.abspath(__file__))))
 
 
+# constructs outside the operator grammar: only layout invariance, source round trip and hash-seed independence
+FIXED = [
+    "map { 1 : 2 , 'a' : ( 3 , 4 ) }", "map { }", "[ 1 , 2 ]", "array { 1 , 2 }", "[ 1 ] ? 1", "map { 1 : 2 } ? 1", "$m ? key", "$m ? *",
+    "$m ? ( 1 + 1 )", "1 => abs ( )", "$f ( 1 , ? )", "concat ( ? , 'a' )", "abs # 1", "function ( $a , $b ) { $a + $b }",
+    "function ( $a as xs:integer ) as xs:integer { $a }", "let $x := 1 , $y := 2 return $x + $y",
+    "for $x in ( 1 , 2 ) , $y in ( 3 , 4 ) return $x * $y", "if ( 1 ) then 2 else 3", "some $x in ( 1 , 2 ) satisfies $x = 1",
+    "child :: a", "descendant-or-self :: node ( )", "a / @ b", "@ *", "element ( a )", "element ( * , xs:integer )", "attribute ( b )",
+    "document-node ( element ( a ) )", "processing-instruction ( 'x' )", "text ( )", ". instance of element ( ) *",
+    ". instance of map ( * )", ". instance of map ( xs:string , item ( ) * )", ". instance of function ( * )",
+    ". instance of function ( xs:integer ) as xs:integer", "1 treat as item ( ) +", "'a' cast as xs:string ?", "xs:integer ( '1' )",
+    "fn:abs ( - 1 )", "math:pi ( )", "$v [ 1 ] [ . = 1 ]", "( 1 , 2 ) ! ( . + 1 )", "'a' || 'b'", "'it''s'", "a [ 1 ] / b [ @ c = 'd' ] // e",
+    "( )", ". / .", ".. / a", "/ a", "// a", "/", "a // b", "$a << $b", "every $x in ( ) satisfies $x", "$f ( )", "a / text ( )",
+    "a [ last ( ) ]", "count ( ( 1 , 2 ) )", "string-join ( ( 'a' , 'b' ) , '-' )", "1 => concat ( 'a' ) => upper-case ( )",
+    "array:size ( [ ] )", "map:get ( map { 'k' : 1 } , 'k' )", "$f ( ? ) ( 1 )", "function ( ) { 1 } ( )",
+]
+
+
 def corpus_item(corpus_seed, i):
     rng = random.Random(hashlib.sha256(('c04/%d/%d' % (corpus_seed, i)).encode()).digest())
     version = rng.choice(VERSIONS)
@@ -32,6 +49,8 @@ def corpus_item(corpus_seed, i):
         bad = rng.choice(['1 => zz:f()', '1 => (', '1 => math:', 'a[', '(1', '1 +', 'count(', '$', '1 => zz:f(2)', 'f(1',
                           "'a' => tns:g()", 'a/', '1 to', 'if (1) then', 'for $x in', 'map{1:', '[1,'])
         return {'kind': 'bad', 'v': version, 'text': bad, 'i': i}
+    if rng.random() < 0.12:
+        return {'kind': 'fixed', 'v': '3.1', 'tokens': rng.choice(FIXED).split(' '), 'layout_seed': rng.randrange(1 << 30), 'i': i}
     if rng.random() < 0.06:
         chains = P.nonassoc_chains(rng, version)
         if chains:
@@ -123,6 +142,48 @@ def process_item(item, history=None):
                     ['chain'])
         return {'i': item['i'], 'text': item['text'], 'rec': rec}, viol
 
+    if item['kind'] == 'fixed':
+        rng = random.Random(item['layout_seed'])
+        toks = item['tokens']
+        canon_text = P.layout(toks, rng, v, 'canon')
+        parts = P.layout_parts(toks, rng, v)
+        varied_text = ''.join(parts)
+        rec = outcome_of(parser, canon_text, root)
+        out = {'i': item['i'], 'text': canon_text, 'rec': rec}
+        if rec[0] != 'ok':
+            return out, viol            # not a valid expression in the first place: nothing to compare
+        rec_var = outcome_of(parser_for(v), varied_text, root)
+        out['varied'] = [varied_text, rec_var]
+        feats.append('fixed-template')
+        if rec_var[0] != 'ok' or rec_var[1] != rec[1]:
+            # is the failure explained by a comment right before a '?' placeholder or next to the ':' of a map
+            # constructor entry? Re-lay those gaps with one blank and parse again.
+            fixed = list(parts)
+            for ti, tk in enumerate(toks):
+                pos = 1 + 2 * ti            # index of token ti in parts; the gap before it is pos - 1
+                if tk == '?' and ti and toks[ti - 1] in ('(', ','):
+                    fixed[pos - 1] = ' '
+                if tk == ':' and 'map' in toks:
+                    fixed[pos - 1] = ' '
+                    if pos + 1 < len(fixed) - 1:
+                        fixed[pos + 1] = ' '
+            if fixed != parts:
+                rec_fix = outcome_of(parser_for(v), ''.join(fixed), root)
+                if rec_fix[0] == 'ok' and rec_fix[1] == rec[1]:
+                    feats.append('explained-by-comment-next-to-placeholder-or-map-colon')
+            violate('LAYOUT', 'whitespace-or-comment-changes-tree:fixed:' + canon_text,
+                    '%r parses as %s but %r as %r' % (canon_text, rec[1], varied_text, rec_var[:2]),
+                    ['template:' + canon_text])
+        rt = outcome_of(parser_for(v), rec[2], root)
+        out['roundtrip'] = rt
+        if rt[0] != 'ok' or rt[1] != rec[1]:
+            violate('ROUNDTRIP', 'source-does-not-reparse-to-same-tree:fixed:' + canon_text,
+                    'source %r of %r re-parses as %r, original tree %s' % (rec[2], canon_text, rt[:2], rec[1]),
+                    ['template:' + canon_text])
+        elif len(rec) > 4 and len(rt) > 4 and rec[4] is not None and rt[4] is not None and rec[4] != rt[4]:
+            violate('ROUNDTRIP', 'source-evaluates-differently:fixed:' + canon_text,
+                    '%r gives %r but its source %r gives %r' % (canon_text, rec[4], rec[2], rt[4]), ['template:' + canon_text])
+        return out, viol
     tbl = P.table(v)
     ast = item['ast']
     rng = random.Random(item['layout_seed'])
